@@ -442,4 +442,26 @@ def r27n(F):
     return r
 
 
-RULES = [r25, r26, r26c, r27, r27n, r68]
+def r25p(F):
+    r = RuleResult("R25p", "visit and leave callbacks are paired",
+                   "in Walker::walk_statement / walk_expression / walk_value every visit_X call is followed by the matching leave_X "
+                   "call on every path to the end of the function: visitors keep nesting state between the two (the checker counts "
+                   "module nesting and skips statements while it is non-zero), so a path that skips leave_X leaves that state stuck",
+                   floor=6, exhaustive=True)
+    for n in ("walk_statement", "walk_expression", "walk_value"):
+        fn = F.fn(W + n)
+        calls = [(b, callee(t).split("::")[-1]) for b, t in fn.calls() if "walk::Visitor::" in callee(t)]
+        visits = [(b, c) for b, c in calls if c.startswith("visit_")]
+        need(visits, "%s calls no visit_* callback" % n)
+        exits = cfg.exits(fn)
+        for b, c in visits:
+            want = "leave_" + c[len("visit_"):]
+            leaves = {bb for bb, cc in calls if cc == want}
+            ok = bool(leaves) and util.must_pass(fn, fn.term(b)["t"], leaves, exits=exits)
+            r.inst("%s:%s" % (n, c), fn.where(b), ok, "%s follows on every path" % want if ok else
+                   "a path through %s returns after %s without calling %s: a visitor's nesting state is never unwound (the checker then "
+                   "skips every later statement of the file)" % (n, c, want))
+    return r
+
+
+RULES = [r25, r25p, r26, r26c, r27, r27n, r68]
